@@ -2,7 +2,7 @@
 # Confirms every seeded change in a scratch worktree of /repo HEAD (outside /repo and /verif):
 #   suite passes with the patch, demo fails with the patch, demo passes without it.
 # Writes /verif/seeded/<id>/confirm.json. Usage: confirm_seeds.sh [ids...]
-WT=/tmp/confirm_wt
+WT=${CONFIRM_WT:-/tmp/confirm_wt}
 cd /repo && git worktree remove --force $WT 2>/dev/null
 git worktree add -q --detach $WT HEAD && cp /repo/Cargo.lock $WT/
 IDS="$@"; [ -z "$IDS" ] && IDS=$(ls /verif/seeded)
